@@ -6,6 +6,7 @@ import (
 	"bytes"
 	"context"
 	"errors"
+	"net"
 	"net/netip"
 	"os"
 	"sync/atomic"
@@ -27,6 +28,7 @@ type natUplinkMmsg struct {
 	natConnSendCh  <-chan *natQueuedPacket
 	natConnPacker  zerocopy.ClientPacker
 	natTimeout     time.Duration
+	state          *atomic.Pointer[net.UDPConn]
 	relayBatchSize int
 	logger         *zap.Logger
 }
@@ -331,6 +333,7 @@ func (s *UDPNATRelay) recvFromServerConnRecvmmsg(ctx context.Context, lnc *udpRe
 							natConnSendCh:  natConnSendCh,
 							natConnPacker:  clientSession.Packer,
 							natTimeout:     lnc.natTimeout,
+							state:          &entry.state,
 							relayBatchSize: lnc.relayBatchSize,
 							logger:         lnc.logger,
 						})
@@ -488,7 +491,7 @@ main:
 			burstBatchSize = max(burstBatchSize, n)
 		}
 
-		if err := uplink.natConn.SetReadDeadline(time.Now().Add(uplink.natTimeout)); err != nil {
+		if err := extendNATConnReadDeadline(uplink.natConn.UDPConn, uplink.state, uplink.natTimeout); err != nil {
 			uplink.logger.Error("Failed to set read deadline on natConn",
 				zap.Stringer("clientAddress", uplink.clientAddrPort),
 				zap.String("client", uplink.clientName),
